@@ -231,6 +231,35 @@ impl G<'_> {
         n
     }
 
+    /// every cell (head, inner, last) gets 0 / 1 / 2 / 3 rdf:type values drawn from {rdf:List, another IRI class, a second
+    /// class, a blank node, rdf:List again}; sometimes one extra non-type property as well
+    fn type_cells(&mut self, cells: &[String], g: &Option<T>, qs: &mut Vec<Q>) {
+        for (k, c) in cells.iter().enumerate() {
+            let n = self.ctx.rng.below(4);
+            let pos = if k == 0 { "head" } else if k + 1 == cells.len() { "last" } else { "inner" };
+            let mut kinds: Vec<&str> = vec![];
+            for _ in 0..n {
+                let (o, kind) = match self.ctx.rng.below(6) {
+                    0 | 1 | 2 => (rdf("List"), "List"),
+                    3 => (iri("http://x/C"), "class"),
+                    4 => (iri("http://x/D"), "class"),
+                    _ => (bn(self.pick(LABELS)), "bnode"),
+                };
+                kinds.push(kind);
+                qs.push(q(&bn(c), &rdf("type"), &o, g));
+            }
+            kinds.sort();
+            kinds.dedup();
+            self.ctx.stats.bump(&format!("typed_cell.{}.n{}", pos, n));
+            self.ctx.stats.bump(&format!("typed_cell.kinds.{}", if kinds.is_empty() { "none".to_string() } else { kinds.join("+") }));
+            if self.chance(1, 8) {
+                let o = self.object("n");
+                qs.push(q(&bn(c), &iri(PRED[1]), &o, g));
+                self.ctx.stats.bump("typed_cell.extra_property");
+            }
+        }
+    }
+
     fn other_pred(&mut self, p: &T) -> T {
         for _ in 0..8 {
             let p2 = self.pred();
@@ -251,7 +280,10 @@ impl G<'_> {
         let s = self.subject();
         let p = self.pred();
         let mut shape = String::from("wellformed");
-        let variant = self.ctx.rng.below(21);
+        let variant = match self.ctx.rng.below(23) {
+            21 | 22 => 5, // typed cells: twice the weight
+            v => v,
+        };
         let mut referenced = true;
         let pick_cell = |me: &mut Self| -> Option<T> {
             if cells.is_empty() { None } else { Some(bn(&cells[me.ctx.rng.below(cells.len())])) }
@@ -295,11 +327,7 @@ impl G<'_> {
             }
             5 => {
                 shape = "typedlist".into();
-                for c in &cells {
-                    if self.chance(2, 3) {
-                        qs.push(q(&bn(c), &rdf("type"), &rdf("List"), &g));
-                    }
-                }
+                self.type_cells(&cells, &g, &mut qs);
             }
             6 => {
                 shape = "split".into();
@@ -821,6 +849,15 @@ pub fn generate(ctx: &mut GenCtx) {
         exhaustive_over(ctx, &core, &subs, &preds4, &objs, &[None, g.clone()], 2, "11", "0", "exhaustive.cell_plus");
         for (mode, urt) in [("10", "0"), ("11", "1"), ("10", "1")] {
             exhaustive_over(ctx, &core, &subs, &preds4, &objs, &[None, g.clone()], 1, mode, urt, "exhaustive.cell_plus");
+        }
+        // a referenced one-cell list (default graph, then a named graph) plus every set of <= 3 quads typing / describing the
+        // cell: rdf:type rdf:List / a class / a second class / a blank node, or a plain property; both use_rdf_type settings
+        for gr in [None, g.clone()] {
+            let tcore = [q(&s, &iri("http://x/p"), &x, &gr), q(&x, &rdf("first"), &a, &gr), q(&x, &rdf("rest"), &rdf("nil"), &gr)];
+            for (mode, urt) in [("11", "0"), ("11", "1"), ("10", "0")] {
+                exhaustive_over(ctx, &tcore, &[x.clone()], &[rdf("type"), iri("http://x/p")],
+                    &[rdf("List"), iri("http://x/C"), iri("http://x/D"), y.clone()], &[gr.clone()], 3, mode, urt, "exhaustive.typed_cell");
+            }
         }
         if ctx.thorough {
             // the same around a two-cell list in a named graph, <= 2 further quads, mode 1.0 too
